@@ -319,7 +319,10 @@ def check_conversion(ctx, W, S0, plan, final_seq, agents, validate, ops, reuse=N
     if not fixture and ctx.s("cfg").chance(1, 3) and len(agents) >= 2:
         orders = [list(agents), list(reversed(agents))]
         shared_conv = PlanConverter(d) if ctx.s("cfg").chance(1, 2) else None  # one converter for both threads, or one each
-        # the second thread may work on ANOTHER problem of the same domain (the same one plus an object nobody mentions):
+        # the second thread may work on ANOTHER problem of the same domain (the same one plus an object nobody mentions).
+        # Only the FIRST thread's result is compared then: in the other problem the plan need not be a walk of consistent
+        # steps any more (a forall effect may now write a fluent twice), so the second conversion's own outcome is outside
+        # the quantifier - but nothing it does may be visible to the first:
         # whatever a conversion needs to know about its problem must not be visible to the other one
         probs = [p, p]
         types_ = [ty for ty in W.D["types"] if ty != "agent" and ty not in W.D.get("implicit_types", ())]
@@ -349,7 +352,9 @@ def check_conversion(ctx, W, S0, plan, final_seq, agents, validate, ops, reuse=N
                 return r[1]
             return thunk
         results, switches = C.concurrent(ctx, [mk(pr, o) for pr, o in zip(probs, orders)])
-        for o, r, a in zip(orders, results, alone):
+        for k_, (o, r, a) in enumerate(zip(orders, results, alone)):
+            if k_ == 1 and probs[1] is not p:
+                continue
             if (r[0], r[1] if r[0] == "ok" else None) != (a[0], a[1] if a[0] == "ok" else None):
                 raise Violation("C15/concurrent-conversion-differs", site,
                                 f"agents={o}: two threads converting at once got {C.short(r, 200)}, alone {C.short(a, 200)}")
